@@ -72,6 +72,7 @@ def main():
         print(d.name, state, finding, flush=True)
     rc, o = sh("git status --porcelain", cwd="/repo")
     assert o.strip() == "", "/repo left dirty: " + o
+    sh("/venv/bin/python harness/regen_all.py", cwd=V)      # Gen/*.lean back to what the unchanged sources say
     print("SUMMARY", json.dumps(summary))
 
 
